@@ -79,8 +79,11 @@ pub fn get_num_fmt(num_fmt_id: i32, num_fmts: &[NumFmt]) -> String {
         }
     }
     // Return one of the default ones
-    if num_fmt_id < DEFAULT_NUM_FMTS.len() as i32 {
-        return DEFAULT_NUM_FMTS[num_fmt_id as usize].to_string();
+    if let Some(code) = usize::try_from(num_fmt_id)
+        .ok()
+        .and_then(|id| DEFAULT_NUM_FMTS.get(id))
+    {
+        return code.to_string();
     }
     // Return general
     DEFAULT_NUM_FMTS[0].to_string()
